@@ -42,7 +42,9 @@ CATEGORIES = {"a": "base", "b": "base", "ka-deva": "base", "f_i": "ligature", "a
 GDEF_FEA = ("table GDEF { GlyphClassDef [a b ka-deva ka-beng], [f_i], "
             "[acutecomb gravecomb cedillacomb anusvara-deva anusvara-beng], ; } GDEF;\n")
 ENVS = [[], ["categories"], ["user-gdef"], ["group"], ["q5"], ["q10"], ["deva"], ["categories", "group"],
-        ["categories", "deva"], ["q5", "group"], ["fea-markclass"]]
+        ["categories", "deva"], ["q5", "group"], ["fea-markclass"], ["categories", "gdef-carets"]]
+# a hand-written GDEF block without GlyphClassDef: the classes still come from the categories
+GDEF_CARETS_FEA = "table GDEF { LigatureCaretByPos f_i 250; } GDEF;\n"
 # a hand-written markClass statement left in features.fea whose anchor differs from the UFO's
 FEA_MARKCLASS = "markClass acutecomb <anchor 100 200> @MC_top;\n"
 MARK_FEATURES = {"mark", "mkmk", "abvm", "blwm"}
@@ -67,6 +69,8 @@ def make_spec(env, anchors, reverse=False):
         fea += "languagesystem DFLT dflt;\nlanguagesystem dev2 dflt;\n"
     if "user-gdef" in env:
         fea += GDEF_FEA
+    if "gdef-carets" in env:
+        fea += GDEF_CARETS_FEA
     if "fea-markclass" in env:
         fea += FEA_MARKCLASS
     if fea:
